@@ -36,7 +36,7 @@ def judge(path):
                 cnt("verify_accepts" if rf == 0 else "verify_rejects")
                 if pristine is not None and (rr != 0) != (pristine != 0):
                     out["viol"].append(("verify-verdict-differs-from-pristine:cfg%d:prev=%s:tok=%s" % (cfg, prev, tok),
-                                        "reused checker returned %d, but the same configuration gave %d on this token before any failing verification happened in the process "
+                                        "reused checker returned %d, but the same configuration gave %d on this token in a forked child that had verified nothing before "
                                         "(fresh twin now: %d)" % (rr, pristine, rf), dict(history=h[-4:], tok=tok, prev=prev)))
                 elif (rr == 0) != (rf == 0):
                     out["viol"].append(("verify-verdict-differs:cfg%d:prev=%s:tok=%s:%s" % (cfg, prev, tok, "cleared" if cl else "uncleared"),
@@ -87,8 +87,9 @@ def run(tier, seed, replay):
                 "given the same input at the same clock and return value, error flag (and message after a clear; token bytes for "
                 "deterministic algs, header+payload and reference-verifiability otherwise) are compared. distinct = distinct "
                 "(op, configuration, previous input, input, cleared, outcome) tuples")
-    rep.assumptions = ["two oracles: a fresh twin at the same step, and the 'pristine' verdict of the same (provider, configuration, token) taken at process start "
-                       "before any failing verification (catches process- or thread-wide hidden state that a fresh twin shares)",
+    rep.assumptions = ["two oracles: a fresh twin at the same step, and the 'pristine' verdict of the same (provider, configuration, token) taken in a child process forked before this "
+                       "process verified anything, one child per verdict (catches process- or thread-wide hidden state that a fresh twin shares, also state that "
+                       "is keyed by something other than the key itself: all keys of the workload carry the same kid)",
                        "messages are compared only when the error was cleared just before the call"]
     rd = vf.run_dir("C13")
     outs = collect(rep, tier, seed, replay, rd)
